@@ -22,7 +22,7 @@ from vlib import cfg
 
 MANIFEST = dict(
     technique='TLA+ decision-function model of the ingress pipeline over a finite abstract mutation lattice, enumerated exhaustively by TLC (which is also the test-case generator); every abstract frame / fragment sequence / segment sequence is concretised and injected into the real stack in a child process, with liveness probes, crash bisection on fresh children and TLC trace validation of outcome classes and Serving; supplementary seeded noise',
-    text='TLC enumerates every abstract ARP/IPv4/IPv6/ICMP/UDP/TCP frame of the lattice (field classes for header lengths, total/payload lengths, fragment flags and offsets, addresses, view splits, data offsets, flag combinations, a TCP option grammar with truncated options and bad lengths, ICMP types x size classes with truncated embedded headers, ARP validity classes) and every sequence of <= 3 unrestricted fragments (inconsistent, overlapping, two last fragments, zero-length, offsets at 65528 where `last` wraps in uint16) and <= 3 segments on one 4-tuple, all sequences of <= 3 (4 over a core alphabet) segments with real sequence numbers on an ESTABLISHED connection opened passively or actively (out-of-order / overlapping data, data+FIN out of order then the gap fill, FIN then data beyond it, duplicate FIN, RST in/out of window, window-edge straddling, empty segments ahead, SACK on/off, urgent, truncated options, SYN again), plus queue-pressure families (bursts of well-formed frames that overflow one bounded queue: UDP receive buffer of an unread / late-read socket with large, small and fragmented datagrams, SYN backlog, TCP receive buffer, reassembly memory, neighbour cache; afterwards the application reads the queue and the probes run); each is aimed at a listener, an established connection, a bound UDP socket or nothing in a real stack. Oracle: child exit status / panic text, hang (goroutine dump), the three probes of the property (echo answered, new TCP connection completes and echoes data, UDP datagram delivered) plus an established connection that must keep echoing, and the outcome class (DropAt / DeliverTo / Reply) where the specification fixes one. A hole-list model of the reassembler is checked for NoCrash under all such fragment sequences.',
+    text='TLC enumerates every abstract ARP/IPv4/IPv6/ICMP/UDP/TCP frame of the lattice (field classes for header lengths, total/payload lengths, fragment flags and offsets, addresses, view splits, data offsets, flag combinations, a TCP option grammar with truncated options and bad lengths, ICMP types x size classes with truncated embedded headers, ARP validity classes) and every sequence of <= 3 unrestricted fragments (inconsistent, overlapping, two last fragments, zero-length, offsets at 65528 where `last` wraps in uint16) and <= 3 segments on one 4-tuple, all sequences of <= 3 (4 over a core alphabet) segments with real sequence numbers on an ESTABLISHED connection opened passively or actively (out-of-order / overlapping data, data+FIN out of order then the gap fill, FIN then data beyond it, duplicate FIN, RST in/out of window, window-edge straddling, empty segments ahead, SACK on/off, urgent, truncated options, SYN again), ICMP error frames (v4 type 3 codes 0-4/13, types 11, 12; v6 types 1-4; next-hop MTU classes 0..0xffffffff) quoting an established connection (plain / timestamps / SACK, data in flight or idle, right or wrong sequence number), a SYN-SENT socket, a half-open connection, a connected or bound UDP socket or nothing, with full and truncated quotes, followed by a wait longer than one retransmission timeout, plus queue-pressure families (bursts of well-formed frames that overflow one bounded queue: UDP receive buffer of an unread / late-read socket with large, small and fragmented datagrams, SYN backlog, TCP receive buffer, reassembly memory, neighbour cache; afterwards the application reads the queue and the probes run); each is aimed at a listener, an established connection, a bound UDP socket or nothing in a real stack. Oracle: child exit status / panic text, hang (goroutine dump), the three probes of the property (echo answered, new TCP connection completes and echoes data, UDP datagram delivered) plus an established connection that must keep echoing, and the outcome class (DropAt / DeliverTo / Reply) where the specification fixes one. A hole-list model of the reassembler is checked for NoCrash under all such fragment sequences.',
     design='5 C07',
     level='model_checking',
     note='The lattice is finite by construction: one representative per field class; a crash that needs a specific VALUE inside a class that the representatives miss is not found. Pure noise (random bytes, truncations and bit flips of valid frames) is not enumerable from a model: it is exploration-grade and judged against Serving only. The quick tier runs every single-mutation case plus a seeded sample (~5 k cases); the thorough tier runs the full lattice. Probe deadlines are give-up bounds: a failed probe / hang counts only if it reproduces on a fresh child with the minimised sequence. Outcome classes are asserted only where the property text (with the RFC validity rules it names) fixes one; IPv4 IHL < 5, bad checksums (the stack verifies none), UDP length < datagram and multi-view corner cases are Unspecified. Observations are attributed to a case by the injecting goroutine or by a per-case tag (port / ident + sequence base / payload pattern).')
@@ -73,7 +73,7 @@ def distance(c):
         return len(c['fs']) - 1
     if k == 'tseq':
         return len(c['ls']) - 1
-    if k in ('press', 'eseq'):
+    if k in ('press', 'eseq', 'ierr'):
         return 0
     return 99
 
@@ -247,7 +247,7 @@ def run(ctx):
     if len(allc) + 1 != r1.distinct:
         raise vlib.Inconclusive('dump and state count disagree: %d cases, %d states' % (len(allc), r1.distinct))
     frames = [x for x in allc if x['c']['k'] in ('ip4', 'ip6', 'arp')]
-    seqs = [x for x in allc if x['c']['k'] in ('fseq', 'tseq', 'press', 'eseq')]
+    seqs = [x for x in allc if x['c']['k'] in ('fseq', 'tseq', 'press', 'eseq', 'ierr')]
     hist = {}
     for x in allc:
         kk = '%s/%s' % (x['c']['k'], x['o']['kind'])
@@ -266,34 +266,51 @@ def run(ctx):
     if len(press) < 8:
         raise vlib.Inconclusive('lattice has %d queue-pressure cases' % len(press))
     eseq = [x for x in seqs if x['c']['k'] == 'eseq']
-    seqs = [x for x in seqs if x['c']['k'] != 'eseq']
+    ierr = [x for x in seqs if x['c']['k'] == 'ierr']
+    seqs = [x for x in seqs if x['c']['k'] not in ('eseq', 'ierr')]
     sel = pick_cases(ctx, frames, seqs)
     # sequences on established connections: quick = all of <= 2 segments; thorough = all (<= 3, and 4 over the core letters)
     ctx.rng.shuffle(eseq)
-    for i, x in enumerate(press + eseq):
+    ctx.rng.shuffle(ierr)
+    for i, x in enumerate(press + eseq + ierr):
         x['id'] = len(sel) + i
-    by_id = {x['id']: x for x in sel + press + eseq}
+    by_id = {x['id']: x for x in sel + press + eseq + ierr}
+    if not any(x['c']['ty'] == 'big' and x['c']['tgt'] == 'est-ts' and x['c']['fl'] == 'inflight' and 20 <= x['c']['mtu'] <= 52 for x in ierr):
+        raise vlib.Inconclusive('lattice lacks a small-MTU "fragmentation needed" error aimed at a timestamped connection with data in flight')
     if not any(x['c']['ls'] == ['D1F', 'D0'] for x in eseq):
         raise vlib.Inconclusive('lattice lacks the out-of-order data+FIN then gap-fill sequence')
-    # queue pressure: each family on its own fresh child, probes right after it
-    psumm, pevents = run_driver(ctx, drv, 'pressure', press, batch=1, noise_per_batch=0, noise_batches=0, restart_every=1, max_failures=3)
-    ctx.log('pressure driver: %s' % {k: v for k, v in psumm.items() if k != 'failures'})
+    # four independent driver runs, side by side (the ICMP one mostly waits for retransmission timeouts):
+    #  pressure: each family on its own fresh child, probes right after it
+    #  estab:    sequences on established connections, small batches so that the probes follow closely
+    #  icmperr:  ICMP errors aimed at live state; their effect shows at the next retransmission timeout, so the
+    #            driver waits longer than one RTO (1 s) after each batch before the probes
+    dr = {}
+    ths = [bg(dr, 'pressure', lambda: run_driver(ctx, drv, 'pressure', press, batch=1, noise_per_batch=0, noise_batches=0, restart_every=1, max_failures=3)),
+           bg(dr, 'estab', lambda: run_driver(ctx, drv, 'estab', eseq, batch=25, noise_per_batch=0, noise_batches=0, restart_every=100, max_failures=3)),
+           bg(dr, 'icmperr', lambda: run_driver(ctx, drv, 'icmperr', ierr, batch=ctx.pick(120, 60), noise_per_batch=0, noise_batches=0,
+                                                restart_every=8, max_failures=2, settle_ms=1800))]
+    summ, events = run_driver(ctx, drv, 'main', sel, noise_per_batch=100, noise_batches=ctx.pick(4, 100), restart_every=40)
+    ctx.log('driver: %s' % {k: v for k, v in summ.items() if k != 'failures'})
+    for t in ths:
+        t.join()
+    for k in ('pressure', 'estab', 'icmperr'):
+        if isinstance(dr[k], BaseException):
+            raise dr[k]
+        ctx.log('%s driver: %s' % (k, {a: v for a, v in dr[k][0].items() if a != 'failures'}))
+    (psumm, pevents), (esumm, eevents), (isumm, ievents) = dr['pressure'], dr['estab'], dr['icmperr']
     ctx.extra['pressure'] = dict(families=sorted(x['c']['q'] for x in press), cases_run=psumm['cases'], probe_rounds=psumm['probes'],
                                  observed={e['c']['q']: sorted(e.get('obs') or []) for e in pevents if e.get('ev') == 'inject'})
-    # established connections: small batches, so that the probes follow closely
-    esumm, eevents = run_driver(ctx, drv, 'estab', eseq, batch=25, noise_per_batch=0, noise_batches=0, restart_every=100, max_failures=3)
-    ctx.log('established-connection driver: %s' % {k: v for k, v in esumm.items() if k != 'failures'})
     ctx.extra['established'] = dict(sequences=len(eseq), cases_run=esumm['cases'], probe_rounds=esumm['probes'],
                                     by_mode={m: sum(1 for x in eseq if x['c']['mode'] == m) for m in ('pas', 'act')},
                                     longest=max(len(x['c']['ls']) for x in eseq))
-    summ, events = run_driver(ctx, drv, 'main', sel, noise_per_batch=100, noise_batches=ctx.pick(4, 100), restart_every=40)
-    ctx.log('driver: %s' % {k: v for k, v in summ.items() if k != 'failures'})
-    for other in (esumm, psumm):
+    ctx.extra['icmp_errors_at_live_state'] = dict(cases=len(ierr), cases_run=isumm['cases'], probe_rounds=isumm['probes'], settle_ms=1800,
+                                                  targets=sorted(set(x['c']['tgt'] for x in ierr)))
+    for other in (isumm, esumm, psumm):
         for k in ('cases', 'noise_frames', 'probes', 'children', 'late', 'strays', 'repro_runs'):
             summ[k] += other[k]
         summ['failures'] = other['failures'] + summ['failures']
         summ['stopped_early'] = summ.get('stopped_early') or (other.get('stopped_early') and not other['failures'])
-    events = pevents + eevents + events
+    events = pevents + eevents + ievents + events
     ctx.extra.update(cases_run=summ['cases'], noise_frames=summ['noise_frames'], probe_rounds=summ['probes'], children=summ['children'],
                      late_observations=summ['late'], unattributed_emissions=summ['strays'], repro_runs=summ['repro_runs'])
     ctx.extra['evaluations'] = summ['cases'] + summ['noise_frames']
@@ -379,7 +396,7 @@ def replay(ctx, data):
     rp = data.get('replay', {})
     raw, cases = [], []
     for m in rp.get('minimal') or ([dict(pkts=rp.get('pkts'))] if rp.get('pkts') else []):
-        if m.get('c', {}).get('k') in ('press', 'eseq', 'tseq'):      # stateful cases are replayed from the abstract case
+        if m.get('c', {}).get('k') in ('press', 'eseq', 'tseq', 'ierr'):      # stateful cases are replayed from the abstract case
             cases.append(dict(id=len(cases), c=m['c']))
             continue
         for p in m.get('pkts') or []:
@@ -387,7 +404,7 @@ def replay(ctx, data):
     if not raw and not cases:
         raise vlib.Inconclusive('replay file has no recorded bytes')
     if cases:
-        summ, events = run_driver(ctx, drv, 'replay', cases, batch=1)
+        summ, events = run_driver(ctx, drv, 'replay', cases, batch=1, settle_ms=1800)
         for f in summ['failures']:
             ctx.violation('replay: %s %s' % (f.get('why'), first_line(f.get('text'))), dict(kind='replay', text=f.get('text', '')[:4000], cases=cases),
                           key=classify_failure(f))
